@@ -364,12 +364,12 @@ func (m *Multi) Subseq(start, end int) (*Multi, error) {
 	var ns []seq.Sequence
 
 	for _, r := range m.Seq {
-		rs := reflect.New(reflect.TypeOf(r)).Interface().(sequtils.Sliceable)
-		err := sequtils.Truncate(rs, r, start, end)
+		rs := r.Clone()
+		err := sequtils.Truncate(rs, rs, start, end)
 		if err != nil {
 			return nil, err
 		}
-		ns = append(ns, rs.(seq.Sequence))
+		ns = append(ns, rs)
 	}
 
 	ss := &Multi{}
